@@ -163,11 +163,14 @@ func runAlpineDist(r *hx.Run, rnd *hx.Rand, cfg hx.Config) {
 		mm := fmt.Sprintf("%d.%d", maj, min)
 		pretty := "Alpine Linux v" + mm
 		wantVer := mm
+		edgeIssue := ""
 		if edge {
-			vid = fmt.Sprintf("%d.%d_alpha2024%02d%02d", maj, min, 1+rnd.Intn(12), 1+rnd.Intn(28))
+			stamp := fmt.Sprintf("_alpha2024%02d%02d", 1+rnd.Intn(12), 1+rnd.Intn(28))
+			vid = mm + stamp
 			if rnd.Chance(1, 2) {
-				vid = fmt.Sprintf("%d.%d.0_alpha2024%02d%02d", maj, min, 1+rnd.Intn(12), 1+rnd.Intn(28))
+				vid = mm + ".0" + stamp
 			}
+			edgeIssue = mm + stamp // alpine-release of an edge image carries no patch number
 			pretty = "Alpine Linux edge"
 			wantVer = "edge"
 		}
@@ -176,7 +179,7 @@ func runAlpineDist(r *hx.Run, rnd *hx.Rand, cfg hx.Config) {
 		osr := renderOsFile(rnd, kvs, []int{0, 1, 2})
 		issue := []byte("Welcome to Alpine Linux " + mm + "\nKernel \\r on an \\m (\\l)\n\n")
 		if edge {
-			issue = []byte("Welcome to Alpine Linux " + strings.Replace(vid, ".0_", "_", 1) + " (edge)\nKernel \\r on an \\m (\\l)\n\n")
+			issue = []byte("Welcome to Alpine Linux " + edgeIssue + " (edge)\nKernel \\r on an \\m (\\l)\n\n")
 		}
 		layout := rnd.Intn(3) // both files, os-release only, issue only
 		hasOsr, hasIssue := layout != 2, layout != 1
